@@ -6,6 +6,8 @@
 #include <stdlib.h>
 #include <string.h>
 #include <stdint.h>
+#include <signal.h>
+#include <unistd.h>
 #include "a/str.h"
 #include "a/utf.h"
 #include "fault.h"
@@ -21,6 +23,12 @@ static void on_death(void)
 {
     fprintf(stdout, "CRASH {\"edge\":%ld,%s}\n", n_edges, cur_desc);
     fflush(stdout);
+}
+static void on_abort(int sig)
+{
+    (void)sig;
+    on_death(); /* UBSan (abort_on_error=1) raises SIGABRT without running the death callback */
+    _exit(97);
 }
 static char const *opn[] = {"?", "catc", "catc_", "catn", "catn_", "cats", "cats_", "cat", "cat_", "catf", "utf_catc", "getc", "getc_", "getn", "getn_",
                             "rtrim", "rtrim_", "ltrim", "ltrim_", "trim", "trim_", "setn", "setn_", "setm", "setm_", "exit", "cmpn", "cmps", "cmp"};
@@ -241,6 +249,7 @@ int main(int argc, char **argv)
 {
     if (argc < 5 || strcmp(argv[1], "edges")) { fprintf(stderr, "usage: %s edges <tlc-output> <out-prefix> <batches> [skip]\n", argv[0]); return 2; }
     __sanitizer_set_death_callback(on_death);
+    signal(SIGABRT, on_abort);
     f_install();
     if (argc > 6)
     {
